@@ -376,4 +376,350 @@ theorem setItem_create_names (cls : Cls) (kvs : List (Str × Val)) (q : Pos) (kc
   simp only [qmark_render, Bool.false_and, Bool.false_eq_true, if_false, hasPathChar_render, if_true, htok, hfind,
     List.nil_append, List.isEmpty_cons, Bool.not_false, hadd, hst]
 
+/-! ### tokenisation across a '/' -/
+
+theorem fixBr_nil : fixBr [] = [] := by rw [fixBr]
+
+theorem fixBr_append_slash : ∀ (a b : Str), fixBr (a ++ '/' :: b) = fixBr a ++ '/' :: fixBr b
+  | [], b => by rw [List.nil_append, fixBr_cons_ne '/' _ (by decide), fixBr_nil]; rfl
+  | [c], b => by
+    by_cases hc : c = ']'
+    · subst hc
+      rw [show [']'] ++ '/' :: b = ']' :: '/' :: b from rfl, fixBr_rb_other '/' _ (by decide),
+        fixBr_cons_ne '/' _ (by decide), fixBr_rb_nil]; rfl
+    · rw [show [c] ++ '/' :: b = c :: '/' :: b from rfl, fixBr_cons_ne c _ hc, fixBr_cons_ne '/' _ (by decide),
+        fixBr_cons_ne c _ hc, fixBr_nil]; rfl
+  | c :: d :: rest, b => by
+    by_cases hc : c = ']'
+    · subst hc
+      by_cases hd : d = '['
+      · subst hd
+        rw [show (']' :: '[' :: rest) ++ '/' :: b = ']' :: '[' :: (rest ++ '/' :: b) from rfl, fixBr_rb_lb, fixBr_rb_lb,
+          fixBr_append_slash rest b]; rfl
+      · rw [show (']' :: d :: rest) ++ '/' :: b = ']' :: d :: (rest ++ '/' :: b) from rfl, fixBr_rb_other d _ hd,
+          fixBr_rb_other d _ hd]
+        have := fixBr_append_slash (d :: rest) b
+        rw [List.cons_append] at this
+        rw [this]; rfl
+    · rw [show (c :: d :: rest) ++ '/' :: b = c :: ((d :: rest) ++ '/' :: b) from rfl, fixBr_cons_ne c _ hc,
+        fixBr_cons_ne c _ hc, fixBr_append_slash (d :: rest) b]; rfl
+
+theorem splitChar_ne_nil (c : Char) : ∀ (s : Str), splitChar c s ≠ []
+  | [] => by simp [splitChar]
+  | x :: s => by
+    by_cases h : x = c
+    · simp [splitChar, h]
+    · simp only [splitChar, h, if_false]
+      cases splitChar c s <;> simp
+
+theorem splitChar_append_sep (c : Char) : ∀ (x y : Str), splitChar c (x ++ c :: y) = splitChar c x ++ splitChar c y
+  | [], y => by simp [splitChar]
+  | a :: x, y => by
+    have ih := splitChar_append_sep c x y
+    by_cases h : a = c
+    · simp [splitChar, h, ih]
+    · simp only [List.cons_append, splitChar, h, if_false, ih]
+      cases hx : splitChar c x with
+      | nil => exact absurd hx (splitChar_ne_nil c x)
+      | cons p ps => simp
+
+/-- the token list of a text is the concatenation of the token lists of its two sides of a '/' -/
+theorem tokenize_append_slash (a b : Str) : tokenize (a ++ '/' :: b) = tokenize a ++ tokenize b := by
+  unfold tokenize
+  rw [fixBr_append_slash, splitChar_append_sep, List.filter_append, List.map_append]
+
+theorem fixBr_noRB (s : Str) (h : ∀ c ∈ s, c ≠ ']') : fixBr s = s := by
+  have := fixBr_append_noRB s [] h
+  rwa [List.append_nil, fixBr_nil, List.append_nil] at this
+
+theorem tokenize_key {k : Str} (hk : PlainKey k) : tokenize k = [k] := by
+  unfold tokenize
+  rw [fixBr_noRB k hk.noRB, splitChar_no_delim '/' k hk.noSlash]
+  simp [isEmpty_false_of_ne hk.ne, hk.stripWs]
+
+/-- index text that can stand between brackets without disturbing the tokeniser -/
+def CleanIdx (e : Str) : Prop := ∀ c ∈ e, c ≠ ']' ∧ c ≠ '/'
+
+theorem cleanIdx_new : CleanIdx sNew := by unfold CleanIdx; decide
+theorem cleanIdx_last : CleanIdx sLast := by unfold CleanIdx; decide
+theorem cleanIdx_nat (n : Nat) : CleanIdx (natStr n) := fun c hc => ⟨natStr_noRB n c hc, natStr_noSlash n c hc⟩
+
+theorem tokenize_keyBracket {k e : Str} (hk : PlainKey k) (he : CleanIdx e) :
+    tokenize (k ++ bracket e) = [k ++ bracket e] := by
+  have hform : k ++ bracket e = (k ++ '[' :: e) ++ [']'] := by simp [bracket]
+  have hnoRB : ∀ c ∈ k ++ '[' :: e, c ≠ ']' := by
+    intro c hc
+    simp only [List.mem_append, List.mem_cons] at hc
+    rcases hc with hc | hc | hc
+    · exact hk.noRB c hc
+    · subst hc; decide
+    · exact (he c hc).1
+  have hnoSl : ∀ c ∈ (k ++ '[' :: e) ++ [']'], c ≠ '/' := by
+    intro c hc
+    simp only [List.mem_append, List.mem_cons, List.not_mem_nil, or_false] at hc
+    rcases hc with (hc | hc | hc) | hc
+    · exact hk.noSlash c hc
+    · subst hc; decide
+    · exact (he c hc).2
+    · subst hc; decide
+  have hstrip : stripWs ((k ++ '[' :: e) ++ [']']) = (k ++ '[' :: e) ++ [']'] := by
+    apply stripWs_eq_self
+    · intro c hc
+      cases k with
+      | nil => exact absurd rfl hk.ne
+      | cons x k =>
+        simp at hc; subst hc
+        exact (plainChar_ne (hk.chars _ (by simp))).2.2.2.2
+    · intro c hc
+      rw [List.getLast?_append] at hc
+      simp at hc; subst hc; decide
+  unfold tokenize
+  rw [hform, fixBr_append_noRB _ _ hnoRB, fixBr_rb_nil, splitChar_no_delim '/' _ hnoSl]
+  simp only [List.filter_cons, List.filter_nil]
+  rw [if_pos (by simp)]
+  simp only [List.map_cons, List.map_nil, hstrip]
+
+theorem renderPos_keys_cons (x : Str) (ms : List Str) :
+    renderPos ((x :: ms).map Seg.key) = '/' :: (x ++ renderPos (ms.map Seg.key)) := by
+  simp [renderPos, renderSeg]
+
+/-- a token followed by `/x/y/…` -/
+theorem tokenize_then_names (T : Str) : ∀ (ms : List Str), (∀ m ∈ ms, PlainKey m) →
+    tokenize (T ++ renderPos (ms.map Seg.key)) = tokenize T ++ ms
+  | [], _ => by simp [renderPos]
+  | [x], h => by
+    rw [renderPos_keys_cons, tokenize_append_slash]
+    simp [renderPos, tokenize_key (h x (by simp))]
+  | x :: y :: ms, h => by
+    have ih := tokenize_then_names x (y :: ms) (fun m hm => h m (by simp [hm]))
+    rw [renderPos_keys_cons, tokenize_append_slash, ih, tokenize_key (h x (by simp))]
+    simp
+
+/-- tokens of `//…q…/name[e]/x/y…` -/
+theorem tokenize_elem_path (q : Pos) (hp : PlainPos q) {name e : Str} (hn : PlainKey name) (he : CleanIdx e)
+    (tail : List Str) (ht : ∀ m ∈ tail, PlainKey m) :
+    tokenize (slash ++ renderPos q ++ slash ++ (name ++ bracket e) ++ renderPos (tail.map Seg.key))
+      = mergedToks q ++ (name ++ bracket e) :: tail := by
+  rw [tokenize_then_names _ tail ht]
+  have : slash ++ renderPos q ++ slash ++ (name ++ bracket e) = ('/' :: renderPos q) ++ '/' :: (name ++ bracket e) := by
+    simp [slash]
+  rw [this, tokenize_append_slash, tokenize_render q hp, tokenize_keyBracket hn he]
+  simp
+
+/-! ### `_find` on the element-creating steps -/
+
+/-- `name[e]` with `name` present: descend and re-emit `[e]` (whatever `e` is) -/
+theorem find_keyidx_step' (fuel : Nat) (root : Val) (entry rl : Bool) (q : Pos) (found tok k e : Str)
+    (rest : List Str) (cls : Cls) (kvs : List (Str × Val)) (c : Val)
+    (hq : getAt root q = some (.dict cls kvs)) (hsplit : splitNameIndex tok = .ok (k, .str e))
+    (hne : k ≠ []) (hup : k ≠ ['.', '.']) (hstar : k ≠ ['*']) (hl : lookup k kvs = some c) :
+    findD (fuel + 1) root [] false entry (tok :: rest) (.at q) rl found
+      = findD fuel root [] false false (bracket e :: rest) (.at (q ++ [Seg.key k])) rl (found ++ slash ++ k) := by
+  have hne' : k.isEmpty = false := isEmpty_false_of_ne hne
+  rw [findD]
+  simp only [Bool.false_and, Bool.false_eq_true, if_false, valOf_at, hq, hsplit, hne', Bool.not_false,
+    hup, hstar, isList, isDict, Bool.not_true, hl, childRef]
+  simp
+
+/-- an index beyond the end of the list: NOT FOUND with the list as parent -/
+theorem find_idx_miss (fuel : Nat) (root : Val) (entry rl : Bool) (P : Pos) (found tok e : Str) (i : Int)
+    (rest : List Str) (cls : Cls) (xs : List Val)
+    (hP : getAt root P = some (.list cls xs)) (hk : IdxTok tok e i)
+    (hout : i ≥ (xs.length : Int) ∨ i < -(xs.length : Int)) :
+    findD (fuel + 1) root [] false entry (tok :: rest) (.at P) rl found
+      = .ok (root, { parent := .at P, nameIdx := some (bracket (intStr i)), value := Val.none, found := found,
+                     notFound := some (tok :: rest) }) := by
+  have hne : e.isEmpty = false := isEmpty_false_of_ne hk.ne
+  rw [findD]
+  simp only [Bool.false_and, Bool.false_eq_true, if_false, valOf_at, hP, hk.split, List.isEmpty_nil,
+    Idx.truthy, hne, Bool.not_false, Bool.and_false, Bool.not_true, hk.notNew, hk.notStar, hk.eval]
+  simp [hout]
+
+theorem foundAt_snoc_key {root : Val} {q : Pos} {name : Str} {c : Val} {r : Res} {kcls : Cls}
+    {nkvs : List (Str × Val)} (h : FoundAt root [] (q ++ [.key name]) c r)
+    (hq : getAt root q = some (.dict kcls nkvs)) : r.parent = .at q ∧ r.nameIdx = some name := by
+  obtain ⟨_, _, pp, s, pv, ni, hp, hpar, hpv, hni, hname⟩ := h
+  obtain ⟨rfl, hs⟩ := List.append_inj' hp rfl
+  simp only [List.cons.injEq, and_true] at hs
+  subst hs
+  simp only [List.nil_append] at hpar hpv
+  rw [hq] at hpv
+  cases hpv
+  rcases hname.inv with ⟨_, _, k, _, hk, rfl⟩ | ⟨_, _, _, _, _, hk, _, _⟩
+  · cases hk; exact ⟨hpar, hni⟩
+  · cases hk
+
+/-- `[new()]` below `name`: `_find` re-resolves `found`, wraps a non-list value **in place**, and
+reports NOT FOUND with the list as parent -/
+theorem find_new_step (fuel : Nat) (root : Val) (entry rl : Bool) (q : Pos) (name : Str) (rest : List Str)
+    (kcls : Cls) (nkvs : List (Str × Val)) (old : Val)
+    (hp : PlainPos q) (hn : PlainKey name) (hq : getAt root q = some (.dict kcls nkvs))
+    (hl : lookup name nkvs = some old) (hf : fuel ≥ 2 * (q.length + 1)) :
+    ∃ fnd, findD (fuel + 1) root [] false entry (bracket sNew :: rest) (.at (q ++ [.key name])) rl
+        (slash ++ renderPos (q ++ [.key name]))
+      = .ok (if isList old then root else (setAt root q (.dict kcls (kvSet name (.list .n0 [old]) nkvs))).getD root,
+          { parent := .at (q ++ [.key name]), nameIdx := Option.none, value := Val.none, found := fnd,
+            notFound := some (bracket sNew :: rest) }) := by
+  have hP : getAt root (q ++ [Seg.key name]) = some old := by
+    rw [getAt_snoc, hq]; simp [child, hl]
+  have hpp : PlainPos (q ++ [Seg.key name]) := hp.append ⟨hn, trivial⟩
+  have hs := spells_merged _ root old hpp hP
+  have hlen := mergedToks_length_le (q ++ [Seg.key name])
+  obtain ⟨r, hr, hfound⟩ := find_spells root rl hs (mergedToks_ne_nil _ (by simp)) fuel [] slash false rfl
+    (by simp at hlen ⊢; omega)
+  obtain ⟨hpar, hni⟩ := foundAt_snoc_key hfound hq
+  have htok : tokenize (slash ++ renderPos (q ++ [Seg.key name])) = mergedToks (q ++ [Seg.key name]) :=
+    tokenize_render _ hpp
+  refine ⟨r.found, ?_⟩
+  rw [findD]
+  simp only [Bool.false_and, Bool.false_eq_true, if_false, valOf_at, hP, split_bracket_new, List.isEmpty_nil,
+    Idx.truthy, Bool.not_true, if_true, htok, hr, hpar, hni, hq, hl]
+  cases hlist : isList old with
+  | true => simp [childRef, (by decide : sNew ≠ [])]
+  | false => simp [childRef, writeRef, (by decide : sNew ≠ [])]
+
+/-! ### `_add` on the element-creating steps -/
+
+/-- `name[new()]` / `name[0]` on a fresh name: the one-element list with a placeholder -/
+theorem addStep_elem_first (root root1 : Val) (q : Pos) (c : Cls) (kvs : List (Str × Val)) (name e : Str)
+    (hq : getAt root q = some (.dict c kvs)) (hn : PlainKey name) (he : e = sNew ∨ e = ['0'])
+    (hl : lookup name kvs = Option.none)
+    (hs : setAt root q (.dict c (kvSet name (.list .n0 [Val.none]) kvs)) = some root1) :
+    addStep root (.at q) Option.none (name ++ bracket e) = .ok (root1, .at (q ++ [.key name]), bracket sLast) := by
+  have hie : IdxExpr e := by
+    rcases he with rfl | rfl
+    · exact idxExpr_new
+    · exact (natStr_idxExpr 0)
+  have hsplit := split_bracket name e (Or.inr hn) hie
+  have hne : e.isEmpty = false := isEmpty_false_of_ne hie.ne
+  have hcond : (decide (Idx.str e ≠ Idx.str sNew) && decide (Idx.str e ≠ Idx.str ['0'])) = false := by
+    rcases he with rfl | rfl <;> simp
+  unfold addStep
+  simp only [pure_bind, hsplit, ok_bind, hn.noBracket, hn.noSlashC, List.contains_nil, Bool.or_self,
+    Bool.false_eq_true, if_false, List.isEmpty_nil, Bool.not_true, valOf_at, hq,
+    isEmpty_false_of_ne hn.ne, Bool.not_false, if_true, hl, Idx.truthy, hne, hcond]
+  rw [modRef_at' root q _ (.dict c kvs) root1 hq]
+  · simp [childRef]; rfl
+  · exact hs
+
+/-- `[new()]` on the list `_find` reported: a placeholder is appended -/
+theorem addStep_new_list (root root1 : Val) (P : Pos) (c : Cls) (xs : List Val)
+    (hP : getAt root P = some (.list c xs)) (hs : setAt root P (.list c (xs ++ [Val.none])) = some root1) :
+    addStep root (.at P) Option.none (bracket sNew) = .ok (root1, .at P, bracket sLast) := by
+  unfold addStep
+  simp only [pure_bind, split_bracket_new, ok_bind, List.contains_nil, Bool.or_self,
+    Bool.false_eq_true, if_false, List.isEmpty_nil, Bool.not_true, valOf_at, hP, ne_eq, not_true_eq_false]
+  rw [modRef_at' root P _ (.list c xs) root1 hP]
+  · rfl
+  · exact hs
+
+/-- `[len]` on the list `_find` reported: a placeholder is appended -/
+theorem addStep_len_list (root root1 : Val) (P : Pos) (c : Cls) (xs : List Val)
+    (hP : getAt root P = some (.list c xs)) (hs : setAt root P (.list c (xs ++ [Val.none])) = some root1) :
+    addStep root (.at P) (some (bracket (natStr xs.length))) (bracket (natStr xs.length))
+      = .ok (root1, .at P, bracket sLast) := by
+  have hsplit := (natStr_idxTok xs.length).split
+  have hd := natStr_digits xs.length
+  unfold addStep
+  simp only [isEmpty_false_of_ne (bracket_ne_nil _), Bool.false_eq_true, if_false, hsplit, ok_bind, List.contains_nil,
+    Bool.or_self, List.isEmpty_nil, Bool.not_true, valOf_at, hP, hd.ne_new.1, hd.ne_new.2, n0eval_nat, Val.len, if_true]
+  rw [modRef_at' root P _ (.list c xs) root1 hP]
+  · rfl
+  · exact hs
+
+/-- a name after the placeholder: the placeholder is replaced by `{name: {}}` -/
+theorem addStep_last_name (root root1 : Val) (P : Pos) (c : Cls) (xs : List Val) (x : Str)
+    (hP : getAt root P = some (.list c xs)) (hne : xs ≠ []) (hx : PlainKey x)
+    (hs : setAt root P (.list c (xs.dropLast ++ [.dict .n0 [(x, emptyN0Dict)]])) = some root1) :
+    addStep root (.at P) (some (bracket sLast)) x = .ok (root1, .at (P ++ [.idx (xs.length - 1)]), x) := by
+  unfold addStep
+  simp only [isEmpty_false_of_ne (bracket_ne_nil _), Bool.false_eq_true, if_false, split_bracket_last, ok_bind,
+    hx.keyTok.split, hx.noBracket, hx.noSlashC, List.contains_nil, Bool.or_self, List.isEmpty_nil, Bool.not_true,
+    valOf_at, hP, (by decide : sLast ≠ sNew), if_true, isEmpty_false_of_ne hx.ne, Bool.not_false,
+    isEmpty_false_of_ne hne, Idx.truthy]
+  rw [modRef_at' root P _ (.list c xs) root1 hP]
+  · simp [childRef]; rfl
+  · exact hs
+
+/-! ### `_add` followed by the store -/
+
+/-- `_add` succeeds on `toks` and the store that follows yields `t'` -/
+def AddStores (root : Val) (par : PRef) (ni : Option Str) (toks : List Str) (v t' : Val) : Prop :=
+  ∃ root' par' ni', add root par ni toks = (root', .ok (par', ni')) ∧ storeAt root' par' (some ni') v = .ok t'
+
+/-- what remains to do after one level of `_add` -/
+def Cont (root : Val) (nxt : PRef) (nni : Str) (rest : List Str) (v t' : Val) : Prop :=
+  (rest = [] → storeAt root nxt (some nni) v = .ok t') ∧ (rest ≠ [] → AddStores root nxt (some nni) rest v t')
+
+theorem addStores_step {root root1 : Val} {par nxt : PRef} {ni : Option Str} {t nni : Str} {rest : List Str}
+    {v t' : Val} (hstep : addStep root par ni t = .ok (root1, nxt, nni)) (hc : Cont root1 nxt nni rest v t') :
+    AddStores root par ni (t :: rest) v t' := by
+  cases rest with
+  | nil => exact ⟨root1, nxt, nni, by simp [add, hstep], hc.1 rfl⟩
+  | cons a r =>
+    obtain ⟨root', par', ni', hadd, hst⟩ := hc.2 (by simp)
+    exact ⟨root', par', ni', by rw [add, hstep]; simpa using hadd, hst⟩
+
+theorem child_snoc (c : Cls) (ys : List Val) (z : Val) : child (.list c (ys ++ [z])) (.idx ys.length) = some z := by
+  simp [child]
+
+theorem setChild_snoc (c : Cls) (ys : List Val) (z z' : Val) :
+    setChild (.list c (ys ++ [z])) (.idx ys.length) z' = some (.list c (ys ++ [z'])) := by
+  simp [setChild]
+
+/-- after the placeholder has been appended to the list at `P`: either the store overwrites it, or
+the following names replace it by their chain -/
+theorem cont_placeholder (root1 : Val) (P : Pos) (c : Cls) (ys : List Val) (tail : List Str) (v t' : Val)
+    (hP : getAt root1 P = some (.list c (ys ++ [Val.none]))) (ht : ∀ x ∈ tail, PlainKey x)
+    (hset : setAt root1 P (.list c (ys ++ [chain tail v])) = some t') :
+    Cont root1 (.at P) (bracket sLast) tail v t' := by
+  constructor
+  · rintro rfl
+    apply storeAt_last root1 t' P c (ys ++ [Val.none]) v hP (by simp)
+    simpa [chain] using hset
+  · intro hne
+    obtain ⟨x, ms, rfl⟩ : ∃ x ms, tail = x :: ms := by
+      cases tail with
+      | nil => exact absurd rfl hne
+      | cons x ms => exact ⟨x, ms, rfl⟩
+    have hx := ht x (by simp)
+    obtain ⟨root2, hs2⟩ := setAt_isSome P root1 _ (.list c (ys ++ [.dict .n0 [(x, emptyN0Dict)]])) hP
+    have hstep := addStep_last_name root1 root2 P c (ys ++ [Val.none]) x hP (by simp) hx (by simpa using hs2)
+    have hlen : (ys ++ [Val.none]).length - 1 = ys.length := by simp
+    rw [hlen] at hstep
+    have hg2 : getAt root2 (P ++ [Seg.idx ys.length]) = some (.dict .n0 [(x, emptyN0Dict)]) := by
+      rw [getAt_setAt_below root1 root2 _ P _ hs2]
+      simp [getAt, child]
+    have hg2P : getAt root2 P = some (.list c (ys ++ [.dict .n0 [(x, emptyN0Dict)]])) :=
+      getAt_setAt_same P root1 root2 _ hs2 (fun _ _ => trivial)
+    -- a write of `D` at the new element, seen from `root1`
+    have hwrite : ∀ D, setAt root2 (P ++ [Seg.idx ys.length]) D = setAt root1 P (.list c (ys ++ [D])) := by
+      intro D
+      rw [setAt_snoc P root2 (.idx ys.length) D _ _ hg2P (setChild_snoc c ys _ D)]
+      exact setAt_overwrite P root1 root2 _ _ hs2
+    refine addStores_step hstep ⟨?_, ?_⟩
+    · rintro rfl
+      apply storeAt_key root2 t' (P ++ [Seg.idx ys.length]) .n0 [(x, emptyN0Dict)] x v hg2 hx
+      rw [hwrite]
+      simpa [chain, kvSet] using hset
+    · intro hms
+      obtain ⟨m, ms', rfl⟩ : ∃ m ms', ms = m :: ms' := by
+        cases ms with
+        | nil => exact absurd rfl hms
+        | cons m ms' => exact ⟨m, ms', rfl⟩
+      apply add_store_names ms' root2 (P ++ [Seg.idx ys.length]) .n0 [(x, emptyN0Dict)] x .n0 [] m v t' hg2 hx
+        (by simp [lookup, emptyN0Dict]) (ht m (by simp)) rfl (fun y hy => ht y (by simp [hy]))
+      -- the target, seen from root2
+      have hs3 : setAt root2 (P ++ [Seg.idx ys.length]) (.dict .n0 [(x, emptyN0Dict)]) = some root2 :=
+        (hwrite _).trans hs2
+      have e1 := setAt_into_written root2 root2 (P ++ [Seg.idx ys.length]) .n0 [(x, emptyN0Dict)] x
+        (.dict .n0 [(m, chain ms' v)]) hs3
+      -- first descend into x (a dict that exists), then into the fresh m
+      have hgx : getAt root2 (P ++ [Seg.idx ys.length] ++ [Seg.key x]) = some emptyN0Dict := by
+        rw [getAt_snoc, hg2]; simp [child, lookup]
+      rw [show P ++ [Seg.idx ys.length] ++ [Seg.key x, Seg.key m] = P ++ [Seg.idx ys.length] ++ [Seg.key x] ++ [Seg.key m] by simp,
+        setAt_snoc _ root2 (.key m) (chain ms' v) emptyN0Dict (.dict .n0 [(m, chain ms' v)]) hgx (by simp [setChild, emptyN0Dict, kvSet]),
+        e1, hwrite]
+      simpa [chain, kvSet] using hset
+
 end N0.XPath
